@@ -328,7 +328,12 @@ theorem kept_createIndexColl (now : Int) (c : Coll) (ix : Index) :
     unfold createIndexColl.go
     simp only
     split
-    · exact Kept.refl c
+    · unfold refusedCreate
+      split
+      · split
+        · rename_i c1 h; exact kept_expire h
+        · exact Kept.refl c
+      · exact Kept.refl c
     · split <;> exact .inl rfl
   unfold createIndexColl
   split
